@@ -80,12 +80,15 @@ Definition is_null (e : rexpr) := match e with RLit LNull => true | _ => false e
 Definition is_true (e : rexpr) := match e with RLit (LBool true) => true | _ => false end.
 
 (* ---- static_eval_rq_operator: one node whose children are already folded ---- *)
+Definition i64_min : Z := (- 9223372036854775808)%Z.   (* Literal::Integer is an i64 *)
 Definition static_eval_op (n : str) (args : list rexpr) : rexpr :=
   let keep := ROp n args in
   if leqb n n_not then match args with [RLit (LBool b)] => RLit (LBool (negb b)) | _ => keep end
   else if leqb n n_neg then
     match args with
-    | [RLit (LInt v)] => RLit (LInt (- v))
+    | [RLit (LInt v)] =>
+        (* /repo 222f71a: `val.checked_neg()`; i64::MIN has no negation, the call is left unevaluated *)
+        if Z.eqb v i64_min then keep else RLit (LInt (- v))
     | [RLit (LFloat v k)] => RLit (LFloat (- v) k)
     | _ => keep
     end
